@@ -12,46 +12,56 @@ import (
 	"strings"
 	"time"
 
+	"github.com/iden3/go-iden3-crypto/poseidon"
 	"github.com/iden3/go-merkletree-sql/v2"
 	"github.com/iden3/go-schema-processor/v2/verifiable"
 )
 
 type statusFault struct {
-	name string
-	mod  func(rs *verifiable.RevocationStatus, is *Issuer, nonce uint64, r *Rng)
+	name   string
+	mod    func(rs *verifiable.RevocationStatus, is *Issuer, nonce uint64, r *Rng)
+	benign bool // the modified answer is still a truthful, consistent one
+}
+
+func stateOf(c, rv, ro *big.Int) *string {
+	h, err := poseidon.Hash([]*big.Int{c, rv, ro})
+	if err != nil {
+		panic(err)
+	}
+	return hexOfInt(h)
 }
 
 func statusFaults() []statusFault {
 	return []statusFault{
-		{"none", nil},
-		{"state-replaced", func(rs *verifiable.RevocationStatus, is *Issuer, nonce uint64, r *Rng) { rs.Issuer.State = hexOfInt(r.BigBelow(poseidonQ())) }},
-		{"state-nil", func(rs *verifiable.RevocationStatus, is *Issuer, nonce uint64, r *Rng) { rs.Issuer.State = nil }},
-		{"claims-root-replaced", func(rs *verifiable.RevocationStatus, is *Issuer, nonce uint64, r *Rng) {
+		{name: "none"},
+		{name: "state-replaced", mod: func(rs *verifiable.RevocationStatus, is *Issuer, nonce uint64, r *Rng) { rs.Issuer.State = hexOfInt(r.BigBelow(poseidonQ())) }},
+		{name: "state-nil", mod: func(rs *verifiable.RevocationStatus, is *Issuer, nonce uint64, r *Rng) { rs.Issuer.State = nil }},
+		{name: "claims-root-replaced", mod: func(rs *verifiable.RevocationStatus, is *Issuer, nonce uint64, r *Rng) {
 			rs.Issuer.ClaimsTreeRoot = hexOfInt(r.BigBelow(poseidonQ()))
 		}},
-		{"claims-root-dropped", func(rs *verifiable.RevocationStatus, is *Issuer, nonce uint64, r *Rng) { rs.Issuer.ClaimsTreeRoot = nil }},
-		{"rev-root-replaced", func(rs *verifiable.RevocationStatus, is *Issuer, nonce uint64, r *Rng) {
+		{name: "claims-root-dropped", mod: func(rs *verifiable.RevocationStatus, is *Issuer, nonce uint64, r *Rng) { rs.Issuer.ClaimsTreeRoot = nil }},
+		{name: "rev-root-replaced", mod: func(rs *verifiable.RevocationStatus, is *Issuer, nonce uint64, r *Rng) {
 			rs.Issuer.RevocationTreeRoot = hexOfInt(r.BigBelow(poseidonQ()))
 		}},
-		{"rev-root-replaced-consistently", func(rs *verifiable.RevocationStatus, is *Issuer, nonce uint64, r *Rng) {
+		{name: "rev-root-replaced-consistently", mod: func(rs *verifiable.RevocationStatus, is *Issuer, nonce uint64, r *Rng) {
 			// another (empty) revocation tree with a state that is consistent with it: the proof no longer matches
 			o := NewIssuer(r, 0)
 			_ = o.revs.Add(context.Background(), big.NewInt(int64(nonce)+77), big.NewInt(0))
 			ts := o.TreeState()
 			rs.Issuer = ts
 		}},
-		{"rev-root-dropped-nonzero", func(rs *verifiable.RevocationStatus, is *Issuer, nonce uint64, r *Rng) {
+		{name: "rev-root-dropped-nonzero", mod: func(rs *verifiable.RevocationStatus, is *Issuer, nonce uint64, r *Rng) {
 			if is.revs.Root().BigInt().Sign() != 0 {
 				rs.Issuer.RevocationTreeRoot = nil
 			} else {
 				rs.Issuer.State = hexOfInt(big.NewInt(1))
 			}
 		}},
-		{"roots-root-replaced", func(rs *verifiable.RevocationStatus, is *Issuer, nonce uint64, r *Rng) {
+		{name: "roots-root-replaced", mod: func(rs *verifiable.RevocationStatus, is *Issuer, nonce uint64, r *Rng) {
 			rs.Issuer.RootOfRoots = hexOfInt(r.BigBelow(poseidonQ()))
 		}},
-		{"existence-flipped", func(rs *verifiable.RevocationStatus, is *Issuer, nonce uint64, r *Rng) { rs.MTP.Existence = !rs.MTP.Existence }},
-		{"sibling-changed", func(rs *verifiable.RevocationStatus, is *Issuer, nonce uint64, r *Rng) {
+		{name: "existence-flipped", mod: func(rs *verifiable.RevocationStatus, is *Issuer, nonce uint64, r *Rng) { rs.MTP.Existence = !rs.MTP.Existence }},
+		{name: "sibling-changed", mod: func(rs *verifiable.RevocationStatus, is *Issuer, nonce uint64, r *Rng) {
 			np := rebuildProof(&rs.MTP, func(ex *bool, sibs *[]*merkletree.Hash, aux **merkletree.NodeAux) {
 				if len(*sibs) == 0 {
 					h, _ := merkletree.NewHashFromBigInt(big.NewInt(11))
@@ -64,7 +74,7 @@ func statusFaults() []statusFault {
 			})
 			rs.MTP = *np
 		}},
-		{"aux-changed", func(rs *verifiable.RevocationStatus, is *Issuer, nonce uint64, r *Rng) {
+		{name: "aux-changed", mod: func(rs *verifiable.RevocationStatus, is *Issuer, nonce uint64, r *Rng) {
 			np := rebuildProof(&rs.MTP, func(ex *bool, sibs *[]*merkletree.Hash, aux **merkletree.NodeAux) {
 				k, _ := merkletree.NewHashFromBigInt(r.BigBelow(poseidonQ()))
 				v, _ := merkletree.NewHashFromBigInt(big.NewInt(0))
@@ -77,7 +87,7 @@ func statusFaults() []statusFault {
 			})
 			rs.MTP = *np
 		}},
-		{"aux-key-equals-nonce", func(rs *verifiable.RevocationStatus, is *Issuer, nonce uint64, r *Rng) {
+		{name: "aux-key-equals-nonce", mod: func(rs *verifiable.RevocationStatus, is *Issuer, nonce uint64, r *Rng) {
 			np := rebuildProof(&rs.MTP, func(ex *bool, sibs *[]*merkletree.Hash, aux **merkletree.NodeAux) {
 				k, _ := merkletree.NewHashFromBigInt(new(big.Int).SetUint64(nonce))
 				v, _ := merkletree.NewHashFromBigInt(big.NewInt(0))
@@ -86,7 +96,40 @@ func statusFaults() []statusFault {
 			})
 			rs.MTP = *np
 		}},
-		{"proof-for-other-nonce", func(rs *verifiable.RevocationStatus, is *Issuer, nonce uint64, r *Rng) {
+		// missing roots mean zero, each in its own position
+		{name: "zero-roots-omitted", mod: func(rs *verifiable.RevocationStatus, is *Issuer, nonce uint64, r *Rng) {
+			if is.revs.Root().BigInt().Sign() == 0 {
+				rs.Issuer.RevocationTreeRoot = nil
+			}
+			if is.roots.Root().BigInt().Sign() == 0 {
+				rs.Issuer.RootOfRoots = nil
+			}
+		}, benign: true},
+		{name: "empty-claims-tree-root-omitted", mod: func(rs *verifiable.RevocationStatus, is *Issuer, nonce uint64, r *Rng) {
+			// an identity state over an empty claims tree (root omitted), this revocation tree and some roots tree
+			ro := r.BigBelow(poseidonQ())
+			rs.Issuer = verifiable.TreeState{State: stateOf(big.NewInt(0), is.revs.Root().BigInt(), ro), RevocationTreeRoot: hexOfInt(is.revs.Root().BigInt()), RootOfRoots: hexOfInt(ro)}
+			if is.revs.Root().BigInt().Sign() == 0 && r.Bool() {
+				rs.Issuer.RevocationTreeRoot = nil
+			}
+		}, benign: true},
+		{name: "omitted-root-shifts-the-others", mod: func(rs *verifiable.RevocationStatus, is *Issuer, nonce uint64, r *Rng) {
+			// the state hashes the present roots moved up into the place of the omitted one: inconsistent
+			ro := new(big.Int).Add(r.BigBelow(poseidonQ()), big.NewInt(0))
+			if ro.Sign() == 0 {
+				ro.SetInt64(5)
+			}
+			rv := is.revs.Root().BigInt()
+			if rv.Sign() != 0 || r.Bool() {
+				// (nil, rev, ror) with state = H(rev, ror, 0)
+				rs.Issuer = verifiable.TreeState{State: stateOf(rv, ro, big.NewInt(0)), RevocationTreeRoot: hexOfInt(rv), RootOfRoots: hexOfInt(ro)}
+			} else {
+				// (claims, nil, ror) with state = H(claims, ror, 0); the revocation tree is empty
+				c := is.claims.Root().BigInt()
+				rs.Issuer = verifiable.TreeState{State: stateOf(c, ro, big.NewInt(0)), ClaimsTreeRoot: hexOfInt(c), RootOfRoots: hexOfInt(ro)}
+			}
+		}},
+		{name: "proof-for-other-nonce", mod: func(rs *verifiable.RevocationStatus, is *Issuer, nonce uint64, r *Rng) {
 			*rs = is.RevStatus(nonce ^ (1 << uint(r.Intn(40))))
 		}},
 	}
@@ -149,7 +192,7 @@ func genC09(out *Out, r *Rng, tier string, n int, shard int) {
 			})
 			impl := classify(err)
 			var why []string
-			if f.mod == nil {
+			if f.mod == nil || f.benign {
 				// against the real tree: non-revoked iff absent
 				if revoked[q] && impl["err"] != "revoked" {
 					why = append(why, fmt.Sprintf("nonce %d is in the revocation tree but the result is %v", q, impl))
